@@ -34,12 +34,16 @@ pub fn echo_plan(e: &EchoReq, nonce: u64, h2: bool) -> ReqPlan {
             }
         }
     }
+    let mut canon = e.canon.clone();
+    if h2 && e.op == "echo_rawreq" {
+        canon["raw_uri"] = serde_json::json!(format!("http://sim{}", e.target()));
+    }
     ReqPlan {
         nonce,
         head_method: false,
         expect: Expect::Echo {
             op: e.op.to_string(),
-            canon: e.canon.clone(),
+            canon,
             method: e.method.to_string(),
             target: if h2 { format!("http://sim{}", e.target()) } else { e.target() },
             headers,
@@ -131,7 +135,7 @@ pub fn gen_random(seed: u64, idx: u64) -> Plan {
                 let keep_back = if e.op == "echo_mp" { 48 } else { 1 };
                 let max_cut = bytes.len().saturating_sub(keep_back).max(head_len);
                 let cut = r.usize_in(head_len, max_cut);
-                let streaming = e.op == "echo_stream" || e.op == "echo_mp";
+                let streaming = e.op == "echo_stream" || e.op == "echo_mp" || e.op == "echo_rawreq";
                 c.steps.push(Step::Send { data: Blob(bytes[..cut].to_vec()), completes: None });
                 c.steps.push(Step::Sleep { ms: r.range(0, 50) });
                 match r.below(3) {
